@@ -29,7 +29,7 @@ C = {
  "C16": ("exploration", ["E3", "E1"], "exhaustive grid of boundary inputs (range bounds^2, chunk sizes up to usize::MAX, zero sizes) x short follow-up histories, in a build with and one without overflow checks, against a mathematical model + all interleavings of zero-sized and one extreme chunk pull racing with ordinary pulls", "Every cell of the stated grid followed by every history of depth <= 3/4: exact in-range values and indices, no empty chunk, no panic except the documented ones (which must occur). Concurrent leg: zero-sized / usize::MAX/2 chunk pulls racing with single and chunk pulls on every kind under all interleavings keep exactly-once delivery (cumulative requests stay below usize::MAX, see DESIGN.md 11.10 residual).", "5/C16, 11.10"),
  "C17": ("exploration", ["E3", "E1"], "differential: the complete transcripts of an exhaustive history set produced by two differently compiled harness binaries (debug assertions + overflow checks on / off) must be identical, aborts are caught per history; plus the outcome sets of exhaustively explored 2-thread systems (length queries racing with pulls) compared between two differently compiled scheduler binaries", "Transcript hashes per work unit compared between profiles; any abort (std precondition check) or difference is localised to the first differing history. Concurrent leg: per configuration identical outcome sets and violation classes in both profiles.", "5/C17, 11.2"),
  "C18": ("fault_enumeration", ["E1"], "fault injection at every position k (k-th next() of the wrapped iterator - with a scheduling point inside the panicking call -, k-th clone, k-th closure call) x all interleavings of the other threads (scheduling points stay active while the panic unwinds, so destructors of unwind guards interleave with the other threads), with hang predicate, drop ledger and abort attribution, in an optimized build and in one with debug assertions", "For every crash point and every interleaving: no hang, no duplicate, exact-once destruction.", "5/C18, 11.10"),
- "C19": ("model_checking", ["E3"], "bounded-exhaustive histories over up to three live iterators (fresh and cloned) on one collection vs. one reference cursor per iterator, with address checks", "Every delivered reference points at the collection's element, iterators and clones progress independently (all are queried after every step), the collection is intact afterwards.", "5/C19"),
+ "C19": ("model_checking", ["E3", "E1"], "bounded-exhaustive histories over up to three live iterators (fresh and cloned) on one collection vs. one reference cursor per iterator, with address checks + all interleavings of clone() racing with pulls on the original", "Every delivered reference points at the collection's element, iterators and clones progress independently (all are queried after every step), the collection is intact afterwards. Concurrent leg: a clone made while other threads pull never panics, delivers exactly the positions p..len in order with p a position the original had during the call, and leaves the original's exactly-once / order oracles intact.", "5/C19, 11.11"),
 }
 NOTE = {
  "E1": "trusted: the scheduler/shim in /verif/engine, the harness oracles, rustc; assumes SC interleavings + vector-clock happens-before, assumption SPIN (double-checked), bounds stated in the evidence",
